@@ -10,7 +10,7 @@ from . import prover
 from .values import *
 from .repo import Repo, ClassInfo, FuncInfo, ModuleInfo
 from .contracts import Registry, Ty, parse_type, HERE
-from .interp import (Interp, Frame, SpecCtx, State, Unsupported, PathEnd, ReturnSig, BreakSig, ContinueSig, PyExc,
+from .interp import (Interp, Frame, SpecCtx, State, RestartFunction, Unsupported, PathEnd, ReturnSig, BreakSig, ContinueSig, PyExc,
                      Obligation, BUILTIN_EXC, Event, GhostSeg, VRat, VRange)
 from .builtins_model import Builtins, stdlib_axioms, contains_fn, Substr
 from .loops import Loops
@@ -28,11 +28,11 @@ TYPE_NAMES = ['int', 'str', 'bytes', 'bytearray', 'list', 'tuple', 'dict', 'bool
 SORT_OF = {
     'Int': T.I, 'Bool': T.B, 'Bytes': S.sort, 'ByteArray': S.sort, 'ListInt': S.sort, 'ListByte': S.sort,
     'Str': S.sort, 'Latin1': S.sort, 'SeqInt': S.sort, 'IntSeq': S.sort, 'SeqBytes': T.SeqS.sort, 'SeqStr': T.SeqS.sort,
-    'Opaque': T.Obj, 'Value': T.Obj, 'ListBytes': T.SeqS.sort, 'ListObj': T.SeqO.sort, 'SeqObj': T.SeqO.sort,
+    'Opaque': T.Obj, 'Value': T.Obj, 'ListBytes': T.SeqS.sort, 'ListStr': T.SeqS.sort, 'ListObj': T.SeqO.sort, 'SeqObj': T.SeqO.sort,
 }
 KIND_OF = {'Bytes': 'bytes', 'ByteArray': 'bytearray', 'ListInt': 'list', 'ListByte': 'list', 'Str': 'str',
            'Latin1': 'str', 'SeqInt': 'list', 'IntSeq': 'list', 'SeqBytes': 'list', 'SeqStr': 'list', 'ListBytes': 'list',
-           'ListObj': 'list', 'SeqObj': 'list', 'TupleObj': 'tuple'}
+           'ListObj': 'list', 'SeqObj': 'list', 'TupleObj': 'tuple', 'ListStr': 'list'}
 
 
 class FunctionReport:
@@ -664,7 +664,7 @@ class Context:
             return T.SeqO
         return T.SeqS
 
-    EVENT_FORMS = ('events', 'n_events', 'event_arg', 'event_result', 'at_event')
+    EVENT_FORMS = ('events', 'n_events', 'event_arg', 'event_result', 'at_event', 'event_raised', 'event_kwarg', 'event_self')
 
     def contract_event_names(self, contract):
         """Event names a contract speaks about (syntactic), incl. those of helper functions it calls."""
@@ -805,6 +805,12 @@ class Context:
             return self.uf('box_bool', T.B, T.Obj)(v.t)
         if isinstance(v, VInt):
             return self.uf('box_int', T.I, T.Obj)(v.t)
+        if isinstance(v, VExc):
+            # an exception object kept as a value (errors[jid] = e): an object of its own
+            if getattr(v, '_objterm', None) is None:
+                v._objterm = I.fresh('excobj', T.Obj)
+                I.assume(z3.And(v._objterm != self.NONE_OBJ, self.obj_truthy(v._objterm)))
+            return v._objterm
         raise Unsupported('cannot box %r into Obj' % (v,), node)
 
     def unbox(self, I, v, n):
@@ -950,13 +956,16 @@ class Context:
             if n == 'Str':
                 I.assume(self.all_in_range(t, 0, 0x110000))
             return VSeq(t, KIND_OF[n], th, ekind={'SeqBytes': 'bytes', 'SeqStr': 'str'}.get(n))
-        if n in ('ByteArray', 'ListInt', 'ListByte', 'ListBytes', 'ListObj'):
-            th = {'ListBytes': T.SeqS, 'ListObj': T.SeqO}.get(n, S)
+        if n in ('ByteArray', 'ListInt', 'ListByte', 'ListBytes', 'ListObj', 'ListStr'):
+            th = {'ListBytes': T.SeqS, 'ListObj': T.SeqO, 'ListStr': T.SeqS}.get(n, S)
             t = I.fresh(name, th.sort)
             if n in ('ByteArray', 'ListByte'):
                 I.assume(T.IsBytes(t))
-            ek = 'bytes' if n == 'ListBytes' else (ty.args[0] if (n == 'ListObj' and ty.args) else None)
+            ek = 'bytes' if n == 'ListBytes' else ('str' if n == 'ListStr' else (ty.args[0] if (n == 'ListObj' and ty.args) else None))
             return I.alloc(HList(VSeq(t, KIND_OF[n], th, ekind=ek), KIND_OF[n]))
+        if n == 'ListOf':
+            # ListOf(T, k): a list of exactly k arbitrary elements of type T (bounded in LENGTH only; loops over it are unrolled)
+            return I.alloc(HList([self.make_symbolic(I, ty.args[0], '%s_%d' % (name, i_)) for i_ in range(int(ty.args[1]))], 'list'))
         if n == 'Opaque':
             label = ty.args[0] if ty.args else ''
             t = I.fresh(name, T.Obj)
@@ -1043,7 +1052,7 @@ class Context:
         if n == 'Bool':
             return I.truthy(v, node)
         if n in SORT_OF and n != 'Opaque':
-            s = I.seq_of(v, node, want={'SeqBytes': 'seq', 'SeqStr': 'seq', 'ListBytes': 'seq', 'SeqObj': 'obj', 'ListObj': 'obj'}.get(n, 'int'))
+            s = I.seq_of(v, node, want={'SeqBytes': 'seq', 'SeqStr': 'seq', 'ListBytes': 'seq', 'ListStr': 'seq', 'SeqObj': 'obj', 'ListObj': 'obj'}.get(n, 'int'))
             if not s.th.sort.eq(SORT_OF[n]):
                 if I._known_empty(s):
                     return T.SeqTheory.registry[str(SORT_OF[n])].Empty
@@ -1065,7 +1074,7 @@ class Context:
             return VBool(t)
         if n in KIND_OF:
             th = T.SeqTheory.registry[str(SORT_OF[n])]
-            return VSeq(t, KIND_OF[n], th, ekind={'SeqBytes': 'bytes', 'SeqStr': 'str', 'ListBytes': 'bytes'}.get(n))
+            return VSeq(t, KIND_OF[n], th, ekind={'SeqBytes': 'bytes', 'SeqStr': 'str', 'ListBytes': 'bytes', 'ListStr': 'str'}.get(n))
         if n == 'Opaque':
             return VOpaque(t, ty.args[0] if ty.args else '')
         for pl in self.plugins:
@@ -1472,6 +1481,7 @@ class Context:
                     if kw_.arg == 'stable':
                         stable = set(ast.literal_eval(kw_.value))
                 given = [kw_.value for kw_ in node.keywords if kw_.arg == 'given']
+                argtypes = [kw_.value for kw_ in node.keywords if kw_.arg == 'argtypes']
                 # the callable fires LATER: every field of every repository object may have been reassigned in between
                 # (scalars, sequences, lists, dicts, optional values get fresh values; links to other repository objects
                 # keep their target, whose fields are havocked in turn).  What the closure captured by value is kept.
@@ -1491,12 +1501,35 @@ class Context:
                             tmp.heap[loc_] = tmp.heap[loc_].set(fname_, nv_)
                 # given=lambda: P - what the context that fires the callable guarantees about that later state (its precondition)
                 for g_ in given:
+                    if g_.args.args:
+                        continue            # speaks about the closure's arguments: assumed below, once they exist
                     I.pure += 1
                     try:
                         I.assume(I.truthy(I.ev(g_.body, frame)))
                     finally:
                         I.pure -= 1
                 cargs = [VOpaque(I.fresh('closure_arg', T.Obj), 'arg') for _ in range(nargs)]
+                if argtypes:
+                    # argtypes=(T1, T2, ...): the values the firing context passes, arbitrary within their types; the claim's lambda
+                    # may name them (lambda a, b: ...) and given= may constrain them
+                    from .contracts import parse_type
+                    cargs = [self.make_symbolic(I, parse_type(te), 'closure_arg%d' % i_) for i_, te in enumerate(argtypes[0].elts)]
+                cframe = frame
+                if lam.args.args:
+                    if len(lam.args.args) != len(cargs):
+                        raise Unsupported('in_closure: the claim names %d arguments, the closure is fired with %d' % (len(lam.args.args), len(cargs)), node)
+                    env2 = dict(frame.env)
+                    for a_, v_ in zip(lam.args.args, cargs):
+                        env2[a_.arg] = v_
+                    cframe = Frame(env2, frame.module, cls=frame.cls, finfo=frame.finfo, parent=frame.parent, sidecar=frame.sidecar)
+                    cframe.spec = frame.spec
+                for g_ in given:
+                    if g_.args.args:
+                        I.pure += 1
+                        try:
+                            I.assume(I.truthy(I.ev(g_.body, cframe)))
+                        finally:
+                            I.pure -= 1
                 try:
                     I.call(f, cargs, {}, node, frame)
                 except PyExc:
@@ -1505,7 +1538,7 @@ class Context:
                     return VBool(True)
                 I.pure = pure0
                 saved.counter = max(saved.counter, tmp.counter)
-                body = I.truthy(I.ev(lam.body, frame))
+                body = I.truthy(I.ev(lam.body, cframe))
                 # what was assumed while the closure ran (contracts of its callees, the branch it took) are hypotheses
                 hyps = tmp.pc[len(saved.pc):]
                 return VBool(z3.Implies(z3.And(*hyps), body) if hyps else body)
@@ -1628,6 +1661,17 @@ class Context:
             return VBool(T.MentionI(I.as_int(I.ev(node.args[0], frame))))
         if fn == 'truthy':
             return VBool(I.truthy(I.ev(node.args[0], frame)))
+        if fn == 'event_raised':
+            # did the k-th call of that callee raise (instead of returning)?
+            name = self.const_str(I, I.ev(node.args[0], frame))
+            k = VInt(I.as_int(I.ev(node.args[1], frame))).const()
+            evs = [e for e in I.st.trace if isinstance(e, Event) and e.name == name]
+            if any(isinstance(e, GhostSeg) and e.name == name for e in I.st.trace):
+                raise Unsupported('event_raised() over summarised events', node)
+            if k is None or k < 0 or k >= len(evs):
+                self.qcount += 1
+                return VBool(z3.Const('missing-event-raised!%d' % self.qcount, T.B))
+            return VBool(z3.BoolVal(bool(getattr(evs[k], 'raised', False))))
         if fn == 'event_result':
             name = self.const_str(I, I.ev(node.args[0], frame))
             kterm = I.as_int(I.ev(node.args[1], frame))
@@ -1635,7 +1679,7 @@ class Context:
             evs = [e for e in I.st.trace if isinstance(e, Event) and e.name == name]
             ghosts = [e for e in I.st.trace if isinstance(e, GhostSeg) and e.name == name]
             order_ = [e for e in I.st.trace if (isinstance(e, Event) or isinstance(e, GhostSeg)) and e.name == name]
-            if k is None or (len(ghosts) == 1 and order_[0] is ghosts[0]):
+            if k is None:
                 # a symbolic index, and / or a trace whose prefix was summarised at a loop cut: the result of the k-th event is
                 # an element of a ghost sequence of results (prefix) or one of the results recorded since (case distinction)
                 d = self.registry.externs.get(name) or {}
@@ -2035,7 +2079,7 @@ class Context:
             return isinstance(v, VSeq) and v.kind == 'str'
         if n == 'Bytes':
             return isinstance(v, VSeq) and v.kind == 'bytes'
-        if n in ('ListInt', 'ListByte', 'ListBytes', 'ListObj'):
+        if n in ('ListInt', 'ListByte', 'ListBytes', 'ListObj', 'ListStr'):
             return I.is_list(v) and I.cell(v).kind == 'list'
         if n == 'IntSeq':
             if isinstance(v, VSeq):
@@ -2157,7 +2201,7 @@ class Context:
     def elem_hint(self, contract, pname):
         for p, ty in contract.params:
             if p == pname:
-                return {'ListInt': 'int', 'ListByte': 'int', 'ByteArray': 'int', 'ListBytes': 'seq', 'ListObj': 'obj'}.get(ty.name)
+                return {'ListInt': 'int', 'ListByte': 'int', 'ByteArray': 'int', 'ListBytes': 'seq', 'ListStr': 'seq', 'ListObj': 'obj'}.get(ty.name)
         return None
 
     # ---- lemmas ----------------------------------------------------------------------------------------------------------
@@ -2356,6 +2400,7 @@ class Context:
         self.current = contract
         self.current_fi = fi
         work = [[]]
+        restarts = 0
         while work:
             dec = work.pop()
             rep.paths += 1
@@ -2369,8 +2414,30 @@ class Context:
             I.handlers = []
             try:
                 self.run_path(I, contract, fi)
-            except PathEnd:
-                pass
+                if os.environ.get('PYVC_PATHLOG'):
+                    print('PATH normal-end decisions=%s events=%s' % (''.join('1' if d else '0' for d in I.decisions[:I.dpos]),
+                                                                    [getattr(e, 'name', '?') for e in I.st.trace][-12:]))
+            except PathEnd as pe_:
+                if os.environ.get('PYVC_PATHLOG'):
+                    print('PATH pathend decisions=%s events=%s' % (''.join('1' if d else '0' for d in I.decisions[:I.dpos]),
+                                                                  [getattr(e, 'name', '?') for e in I.st.trace][-12:]))
+            except RestartFunction as e:
+                # start the exploration of this function again: what was recorded for it so far is void
+                restarts += 1
+                if restarts > 40:
+                    rep.unsupported.append('too many restarts: ' + str(e))
+                    break
+                self.obligations = [o for o in self.obligations if o.func != fi.qualname]
+                for k_ in [k_ for k_ in self.__dict__.get('fail_counts', {}) if k_.startswith(fi.qualname + ':')]:
+                    del self.fail_counts[k_]
+                rep.paths = 0
+                rep.live_paths = 0
+                rep.unsupported = []
+                note_ = '%s: %s (restarted)' % (fi.qualname, e.msg)
+                if note_ not in self.notes:
+                    self.notes.append(note_)
+                work = [[]]
+                continue
             except Unsupported as e:
                 msg = str(e)
                 if msg not in rep.unsupported:
